@@ -245,7 +245,7 @@ func C06(r *ev.Run) {
 	// 1. TLC writes the case universe with the outcome classes the reference fixes (direction A)
 	out := filepath.Join(os.TempDir(), fmt.Sprintf("verif-c06-cases-%d.ndjson", os.Getpid()))
 	defer os.Remove(out)
-	res := runMC(r, tlc.Options{Module: "Total", Config: "Total.cfg", Workers: 1, Timeout: 10 * time.Minute, Env: map[string]string{"VERIF_OUT": out}})
+	res := runMC(r, tlc.Options{Module: "Total", Config: "Total.cfg", Workers: 1, Timeout: 10 * time.Minute, Env: map[string]string{"VERIF_OUT": out, "VERIF_TIER": tier}})
 	if res == nil {
 		return
 	}
